@@ -694,3 +694,6 @@ Definition quiescent_after (tr : list label) : bool :=
   match run init tr with Some s => quiescent s | None => false end.
 Definition driven_to_return (tr : list label) (fuel : nat) : bool :=
   match run init tr with Some s => returned (drive fuel s) | None => false end.
+(* ... with the variant itself as the fuel: exercises mu on the states the real operator went through *)
+Definition driven_within_mu (tr : list label) : bool :=
+  match run init tr with Some s => returned (drive (mu s) s) | None => false end.
